@@ -24,7 +24,7 @@ pat=re.search(r"-run[ =]+'?\"?([A-Za-z0-9_|^$.*]+)",demo)
 pat=pat.group(1) if pat else 'Seeded'
 if len(set(place.values()))>1 or True:
     # a pattern that matches every seeded test of this change
-    pat='Seeded|ZZSeeded' if not re.search(r'Seeded',pat) else pat
+    pat=('Seeded|ZZSeeded|'+pat) if not re.search(r'Seeded',pat) else pat
 env=dict(os.environ)
 def run(cmd):
     p=subprocess.run(cmd,shell=True,cwd=W,env=env,capture_output=True,text=True)
